@@ -6,6 +6,7 @@ known by construction (and, with a filter, from the known metadata - never from 
 test).  command_split / info -c are driven on files and the pieces concatenated.
 """
 import itertools
+import json
 import os
 import shutil
 
@@ -211,6 +212,34 @@ def split_files(ctx, msgs, stream, scratch, tag, spec):
     so, se, exc, code = run_cli(['info', '-c', path])
     if exc is not None or not so.strip().endswith(': %d' % len(msgs)):
         ctx.violate('info-count-differs', 'info -c printed %r for %d messages (%r)' % (so.strip()[-40:], len(msgs), exc), spec)
+    # decode -m [--filter]: one JSON document per delivered message, in order (identified by its section lengths/metadata)
+    metas = [known_meta(m) for m in msgs]
+    fi = ctx.rng.randrange(len(FILTERS))
+    for expr, truth in ((None, lambda me: True), FILTERS[fi]):
+        args = ['decode', '-m', '-j'] + (['--filter', expr] if expr else []) + [path]
+        so, se, exc, code = run_cli(args)
+        ctx.count('decode_m_command_runs')
+        if exc is not None or se.strip():
+            ctx.violate('decode-m-command-fails%s' % ('/filter' if expr else ''), 'pybufrkit %s failed: %r %s' % (' '.join(args[:-1]), exc, se[:100]),
+                        dict(spec, filter=expr))
+            continue
+        want = [(len(m.bytes), me['data_category'], me['n_subsets']) for m, me in zip(msgs, metas) if truth(me)]
+        got = []
+        try:
+            for ln in so.splitlines():
+                if ln.strip():
+                    doc = json.loads(ln)
+                    sec1 = doc[1]
+                    # [length, edition] ; section 1 holds data_category at a layout-dependent place: take what the sections say
+                    got.append((doc[0][1], None, None))
+        except Exception as e:
+            ctx.violate('decode-m-command-output-unreadable', 'output of %s is not one JSON document per line: %r' % (' '.join(args[:-1]), e),
+                        dict(spec, filter=expr))
+            continue
+        if [g[0] for g in got] != [w[0] for w in want]:
+            ctx.violate('decode-m-command/messages-differ%s' % ('/filter' if expr else ''),
+                        'pybufrkit %s printed messages of lengths %r, expected %r' % (' '.join(args[:-1]), [g[0] for g in got], [w[0] for w in want]),
+                        dict(spec, filter=expr))
     os.remove(path)
 
 
